@@ -15,9 +15,9 @@ NONE == 99        \* exitcode not set
 EMPTY == 98       \* the poll found nothing
 W == 0 .. (PS - 1)
 
-VARIABLES taskq, buf, pipe, ws, code, ec, cnt, pc, k, pool, drained, got, retired, delivered
+VARIABLES taskq, buf, pipe, ws, code, ec, cnt, pc, k, pool, drained, got, retired, delivered, after
 
-vars == <<taskq, buf, pipe, ws, code, ec, cnt, pc, k, pool, drained, got, retired, delivered>>
+vars == <<taskq, buf, pipe, ws, code, ec, cnt, pc, k, pool, drained, got, retired, delivered, after>>
 
 Init ==
     /\ taskq = [i \in 1..N |-> i]
@@ -34,6 +34,7 @@ Init ==
     /\ got = EMPTY
     /\ retired = <<>>
     /\ delivered = [i \in 1..N |-> 0]
+    /\ after = "poll"
 
 \* ---------------------------------------------------------------- parent
 PPutStop ==
@@ -41,7 +42,7 @@ PPutStop ==
     /\ taskq' = Append(taskq, STOP)
     /\ pool' = pool \cup {k}        \* pool[name] = worker is assigned before worker.start()
     /\ pc' = "start"
-    /\ UNCHANGED <<buf, pipe, ws, code, ec, cnt, k, drained, got, retired, delivered>>
+    /\ UNCHANGED <<buf, pipe, ws, code, ec, cnt, k, drained, got, retired, delivered, after>>
 
 PStart ==
     /\ pc = "start"
@@ -50,7 +51,7 @@ PStart ==
     /\ ec' = [ec EXCEPT ![k] = NONE]
     /\ k' = k + 1
     /\ pc' = IF k + 1 < PS THEN "putstop" ELSE "poll"
-    /\ UNCHANGED <<taskq, buf, pipe, code, pool, drained, got, retired, delivered>>
+    /\ UNCHANGED <<taskq, buf, pipe, code, pool, drained, got, retired, delivered, after>>
 
 Deliver(d, g) == IF g = EMPTY THEN d ELSE [d EXCEPT ![g] = @ + 1]
 
@@ -66,7 +67,8 @@ PPoll ==
              THEN /\ pc' = "check"
                   /\ delivered' = delivered
              ELSE /\ delivered' = Deliver(delivered, g)
-                  /\ pc' = IF g = EMPTY THEN "done" ELSE "poll"
+                  /\ pc' = IF g = EMPTY THEN "done" ELSE "consume"
+    /\ after' = "poll"
     /\ UNCHANGED <<taskq, buf, ws, code, ec, cnt, k, pool, retired>>
 
 \* smallest element first: pool is a dict in insertion order Worker-0, Worker-1, ...
@@ -86,11 +88,22 @@ PCheck ==
            r == SortedSeq(ret)
        IN /\ pool' = pool \ reaped
           /\ retired' = r
-          /\ pc' = IF ret # {} THEN "restart" ELSE "poll"
-          /\ ws' = IF r # <<>> THEN Fresh(ws, Head(r), "none") ELSE ws
-          /\ ec' = IF r # <<>> THEN Fresh(ec, Head(r), NONE) ELSE ec
+          /\ after' = IF ret # {} THEN "restart" ELSE "poll"
+          \* a dequeued result is handed to the caller before the loop goes on (PConsume)
+          /\ pc' = IF got # EMPTY THEN "consume" ELSE (IF ret # {} THEN "restart" ELSE "poll")
+          \* (the replacement of the first retired worker's process object follows the hand-over of the result, if there is one)
+          /\ ws' = IF r # <<>> /\ got = EMPTY THEN Fresh(ws, Head(r), "none") ELSE ws
+          /\ ec' = IF r # <<>> /\ got = EMPTY THEN Fresh(ec, Head(r), NONE) ELSE ec
     /\ delivered' = Deliver(delivered, got)
     /\ UNCHANGED <<taskq, buf, pipe, code, cnt, k, drained, got>>
+
+\* the caller holds the yielded result for as long as it likes; everybody else may move meanwhile
+PConsume ==
+    /\ pc = "consume"
+    /\ pc' = after
+    /\ ws' = IF after = "restart" THEN Fresh(ws, Head(retired), "none") ELSE ws
+    /\ ec' = IF after = "restart" THEN Fresh(ec, Head(retired), NONE) ELSE ec
+    /\ UNCHANGED <<taskq, buf, pipe, code, cnt, k, pool, drained, got, retired, delivered, after>>
 
 PRestart ==
     /\ pc = "restart"
@@ -103,14 +116,14 @@ PRestart ==
           /\ cnt' = [cnt EXCEPT ![w] = 0]
           /\ retired' = rest
           /\ pc' = IF rest = <<>> THEN "poll" ELSE "restart"
-    /\ UNCHANGED <<taskq, buf, pipe, code, k, pool, drained, got, delivered>>
+    /\ UNCHANGED <<taskq, buf, pipe, code, k, pool, drained, got, delivered, after>>
 
 \* ---------------------------------------------------------------- workers and feeders
 \* a started process runs up to its first visible operation (the blocking get on the task queue)
 WBoot(w) ==
     /\ ws[w] = "spawned"
     /\ ws' = [ws EXCEPT ![w] = "atget"]
-    /\ UNCHANGED <<taskq, buf, pipe, code, ec, cnt, pc, k, pool, drained, got, retired, delivered>>
+    /\ UNCHANGED <<taskq, buf, pipe, code, ec, cnt, pc, k, pool, drained, got, retired, delivered, after>>
 
 WGet(w) ==
     /\ ws[w] = "atget"
@@ -120,20 +133,20 @@ WGet(w) ==
           /\ IF item = STOP
              THEN /\ ws' = [ws EXCEPT ![w] = "exiting"]
                   /\ code' = [code EXCEPT ![w] = 0]
-                  /\ UNCHANGED <<buf, cnt>>
+                  /\ UNCHANGED <<buf, cnt, after>>
              ELSE /\ buf' = [buf EXCEPT ![w] = Append(@, item)]
                   /\ cnt' = [cnt EXCEPT ![w] = @ + 1]
                   /\ IF cnt[w] + 1 >= Q
                      THEN /\ ws' = [ws EXCEPT ![w] = "exiting"]
                           /\ code' = [code EXCEPT ![w] = 9]
-                     ELSE UNCHANGED <<ws, code>>
-    /\ UNCHANGED <<pipe, ec, pc, k, pool, drained, got, retired, delivered>>
+                     ELSE UNCHANGED <<ws, code, after>>
+    /\ UNCHANGED <<pipe, ec, pc, k, pool, drained, got, retired, delivered, after>>
 
 Flush(w) ==
     /\ buf[w] # <<>>
     /\ pipe' = Append(pipe, Head(buf[w]))
     /\ buf' = [buf EXCEPT ![w] = Tail(@)]
-    /\ UNCHANGED <<taskq, ws, code, ec, cnt, pc, k, pool, drained, got, retired, delivered>>
+    /\ UNCHANGED <<taskq, ws, code, ec, cnt, pc, k, pool, drained, got, retired, delivered, after>>
 
 \* multiprocessing joins the feeder before the process exits
 WExit(w) ==
@@ -141,7 +154,7 @@ WExit(w) ==
     /\ buf[w] = <<>>
     /\ ws' = [ws EXCEPT ![w] = "dead"]
     /\ ec' = [ec EXCEPT ![w] = code[w]]
-    /\ UNCHANGED <<taskq, buf, pipe, code, cnt, pc, k, pool, drained, got, retired, delivered>>
+    /\ UNCHANGED <<taskq, buf, pipe, code, cnt, pc, k, pool, drained, got, retired, delivered, after>>
 
 \* per-worker action names so that TLC's -dump dot,actionlabels identifies the acting worker
 WBoot0 == 0 \in W /\ WBoot(0)
@@ -163,7 +176,7 @@ WExit3 == 3 \in W /\ WExit(3)
 
 Done == pc = "done" /\ UNCHANGED vars
 
-Next == PPutStop \/ PStart \/ PPoll \/ PCheck \/ PRestart
+Next == PPutStop \/ PStart \/ PPoll \/ PCheck \/ PConsume \/ PRestart
         \/ WBoot0 \/ WBoot1 \/ WBoot2 \/ WBoot3
         \/ WGet0 \/ WGet1 \/ WGet2 \/ WGet3
         \/ Flush0 \/ Flush1 \/ Flush2 \/ Flush3
